@@ -123,7 +123,47 @@ type heldString struct {
 func programCase(k *engine.Case, prof *profile) {
 	p := &prog{k: k, prof: prof, prevOp: -1}
 	p.g = &sizeGen{r: k.R, prof: prof, k: k}
+	// buffers are independent values: other sized buffers are alive while the program runs
+	// (created before and after the buffer under test, written up to and beyond their requested
+	// size) and must read at the end what was written into them
+	type sibling struct {
+		b    *tex.Buffer
+		want []byte
+	}
+	var sibs []sibling
+	mkSib := func() {
+		n := []int{0, 1, 8, 16, 64, 300, 512}[k.R.Intn(7)]
+		sb := tex.NewSizedBuffer(n)
+		m := []int{0, n / 2, n, n + 1, n + 9, 2*n + 3}[k.R.Intn(6)]
+		data := make([]byte, m)
+		fill(data, byte('a'+len(sibs)))
+		sb.Write(data)
+		sibs = append(sibs, sibling{sb, data})
+		k.Logf("(another buffer: NewSizedBuffer(%d) with %d bytes %q written)", n, m, byte('a'+len(sibs)-1))
+	}
+	withSibs := k.R.Intn(3) == 0
+	if withSibs {
+		for i, n := 0, 1+k.R.Intn(2); i < n; i++ {
+			mkSib()
+		}
+	}
+	defer func() {
+		for i, sb := range sibs {
+			k.Evals(1)
+			k.Count("sibling_buffers_checked", 1)
+			if got := sb.b.Bytes(); !bytes.Equal(got, sb.want) {
+				k.Fail("other-buffer-changed", "another tex.Buffer (sibling #%d, NewSizedBuffer, %d bytes of %q written) reads %s after the program ran on the buffer under test", i, len(sb.want), sb.want[:min(1, len(sb.want))], fmtBytes(got))
+				return
+			}
+		}
+	}()
 	p.start()
+	if withSibs {
+		mkSib()
+		if !p.compareState(-1, "after another sized buffer was created and written") {
+			return
+		}
+	}
 	k.Count("programs", 1)
 	k.Count("programs_"+prof.name, 1)
 	if !p.compareState(-1, "start") {
